@@ -72,6 +72,15 @@ macro_rules! with_xs_f {
         }
     }};
 }
+/// f64 only
+#[macro_export]
+macro_rules! with_xs_f64 {
+    ($r:expr, $key:expr, $v:ident => $body:expr) => {{
+        let __s = $r.series($key);
+        let $v = $crate::types::as_f64(&__s);
+        $body
+    }};
+}
 #[macro_export]
 macro_rules! with_out {
     ($r:expr, $O:ident => $body:expr) => {{
